@@ -418,9 +418,16 @@ impl Store {
                     }
                 } else if tagname == b"a" {
                     if let Some(naddr_bytes) = tag.next() {
-                        if let Ok(addr) = Addr::try_from_bytes(naddr_bytes) {
+                        if let Ok(mut addr) = Addr::try_from_bytes(naddr_bytes) {
                             if addr.author != event.pubkey() {
                                 return Err(InnerError::InvalidDelete.into());
+                            }
+
+                            // The address of a (non-parameterized) replaceable event has
+                            // no identifier: whatever follows the second colon is ignored,
+                            // as it is when the events are removed below.
+                            if addr.kind.is_replaceable() {
+                                addr.d.clear();
                             }
 
                             // Mark deleted
